@@ -48,6 +48,10 @@ def base_form(rng):
         ln = next(iter(f.choices))
         f.survey.append(Row("group", "begin group", "tl_grp", {"label": "TL", "appearance": "table-list"},
                             [Row("q", f"select_one {ln}", "tl_a", {"label": "a"}), Row("q", f"select_one {ln}", "tl_b", {"label": "b"})]))
+    # truth values on group / repeat rows too (read-only group, a repeat switched off)
+    for r, _ in f.walk():
+        if r.is_section() and rng.random() < 0.3:
+            r.cells[rng.choice(["read_only", "relevant", "required"])] = rng.choice(["yes", "no", "true", "FALSE"])
     # documented settings flags (so that their yes/no spellings can be exchanged)
     if rng.random() < 0.35:
         ln = next(iter(f.choices))
